@@ -175,6 +175,9 @@ fn declared_size_ok(text: &str) -> bool {
     }
 }
 
+/// see the corpus job: result of `pvh scan-f32-double-rounding` (all positive finite f32, std only)
+const F32_DOUBLE_ROUNDING: [u32; 1] = [0x15ae43fd];
+
 fn gen_taxa(rng: &mut Rng, n: usize) -> Vec<String> {
     let fancy = rng.chance(1, 3);
     let mut v = unique_names(rng, n, fancy);
@@ -337,6 +340,54 @@ pub fn run(thorough: bool, seed: u64, driver: &str, rep: &mut Report) {
                         rep.case(&format!("text {}", hex(t)), true);
                         parse_all(t, &mut q, rep, true);
                         rep.count("corpus");
+                    }
+                    // f32 values whose shortest decimal text is NOT read back through f64 (decimal -> f64 -> f32 double rounding): found
+                    // by an exhaustive scan of all 2^31 positive finite f32 (`pvh scan-f32-double-rounding`, std only: exactly one
+                    // value and its negative).  A parser that reads f32 entries through f64 misreads exactly these.
+                    for &bits in F32_DOUBLE_ROUNDING.iter() {
+                        let v = f32::from_bits(bits);
+                        let taxa: Vec<String> = vec!["a".into(), "b".into(), "c".into()];
+                        let cells: Vec<f32> = vec![v, -v, 1.0];
+                        let m = DistanceMatrix::new(taxa.clone(), &cells);
+                        let bits_s = format!("ok {} | {}", enc_taxa(&taxa), cells.iter().map(|x| format!("{:08x}", x.to_bits())).collect::<Vec<_>>().join(" "));
+                        for square in [true, false] {
+                            let case = format!("matrix f32 taxa={taxa:?} cells={:?} square={square}", cells.iter().map(|x| x.to_bits()).collect::<Vec<_>>());
+                            rep.case(&case, true);
+                            rep.count("corpus:f32-double-rounding");
+                            let Ok(text) = guarded(AssertUnwindSafe(|| m.to_phylip(square).unwrap())) else { rep.oracle("no-panic", "to_phylip", &case, "panic"); continue };
+                            let entries: Vec<&str> = if square { vec!["strict-square"] } else { vec!["tril", "strict-tril"] };
+                            for e in entries {
+                                let a = real_parse32(e, &text);
+                                if a != bits_s {
+                                    rep.oracle("roundtrip", &format!("{e}:{}", if a.starts_with("ok") { "differs" } else { a.as_str() }), &format!("ph.parse\t{e}\t{}", hex(&text)), &format!("{a} expected {bits_s} (f32)"));
+                                }
+                            }
+                        }
+                    }
+                    // writing to a FILE and reading it back is the same round trip; the file exists beforehand with longer content
+                    for n in [1usize, 3, 6] {
+                        let taxa: Vec<String> = (0..n).map(|i| format!("s{i}")).collect();
+                        let cells: Vec<f64> = (0..tri(n)).map(|i| 0.125 * (i as f64 + 1.0)).collect();
+                        let m = DistanceMatrix::new(taxa.clone(), &cells);
+                        let want = format!("ok {} | {}", enc_taxa(&taxa), cells.iter().map(|v| canon_f64(*v)).collect::<Vec<_>>().join(" "));
+                        for square in [true, false] {
+                            let path = std::env::temp_dir().join(format!("pvh-c14-{}-{n}-{square}.phy", std::process::id()));
+                            let _ = std::fs::write(&path, "STALE CONTENT OF AN EARLIER, LONGER FILE\n".repeat(40));
+                            let case = format!("matrix f64 taxa={taxa:?} cells={cells:?} square={square} to_file (existing longer file) -> from_file");
+                            rep.case(&case, true);
+                            rep.count("corpus:file-roundtrip");
+                            let p2 = path.clone();
+                            let mm = m.clone();
+                            let got = match guarded(AssertUnwindSafe(|| mm.to_file(&p2, square).map_err(|e| format!("{e:?}")).and_then(|_| DistanceMatrix::<f64>::from_file(&p2, square).map_err(|e| format!("{e:?}"))))) {
+                                Err(_) => "panic".to_string(),
+                                Ok(Err(e)) => format!("err {e}"),
+                                Ok(Ok(r)) => format!("ok {} | {}", enc_taxa(&r.taxa), r.iter().map(|v| canon_f64(*v)).collect::<Vec<_>>().join(" ")),
+                            };
+                            if got != want {
+                                rep.oracle("roundtrip", "file", &case, &format!("{got} expected {want}"));
+                            }
+                            let _ = std::fs::remove_file(&path);
+                        }
                     }
                     // an EMPTY taxon name contains no whitespace, yet Phylip text cannot carry it: the row starts
                     // with blanks and its first distance is read as the name (known finding, see known_findings.json)
